@@ -325,6 +325,9 @@ func (g *Graph) Exits() []Exit {
 			}
 		}
 		if !isRet && len(b.Succs) == 0 {
+			if b.Kind == cfg.KindSelectAfterCase {
+				continue // "no case was chosen" after the last case of a select without default: not a path
+			}
 			// falls off the end, or ends in a no-return call (panic): the latter is not an exit.
 			if len(b.Nodes) > 0 {
 				if es, ok := b.Nodes[len(b.Nodes)-1].(*ast.ExprStmt); ok {
